@@ -55,7 +55,7 @@ FLAVOUR = "asan"
 
 def generate(rng, tier):
     thorough = tier == "thorough"
-    streams = R.base_streams(rng, 240 if thorough else 60, legacy_max=3000)
+    streams = R.base_streams(rng, 150 if thorough else 60, legacy_max=3000)
     if streams is None:
         return R.build_error_case()
     cases = R.regression_cases(FLAVOUR, ORACLES, kd=False) + R.selftest_cases(FLAVOUR)
@@ -64,7 +64,7 @@ def generate(rng, tier):
     small = [s for s in streams if len(s.data) <= 400]
     if thorough:
         by_len = sorted(streams, key=lambda s: len(s.data))
-        plan = [(s, "full") for s in by_len[:16]] + [(s, "dense") for s in streams]
+        plan = [(s, "full") for s in by_len[:10]] + [(s, "dense") for s in streams]
         plan += [(s, "counts") for s in rng.sample(small, min(len(small), 12))]
     else:
         dense = rng.sample(streams, min(len(streams), 14))
@@ -74,7 +74,7 @@ def generate(rng, tier):
         for tag, data in R.mutations(rng, s, streams, prof):
             cases.append(R.make_case(data, "01234", FLAVOUR, ORACLES, (tag, "mut:" + s.cls), base=s.data))
     # structure-aware corruption of every located small-integer field; tamper-hook streams (semantic corruption)
-    cases += R.structured_cases(rng, tier, FLAVOUR, ORACLES, n_each=12 if thorough else 5)
+    cases += R.structured_cases(rng, tier, FLAVOUR, ORACLES, n_each=8 if thorough else 5)
     cases += R.tamper_cases(rng, tier, FLAVOUR, ORACLES, budget=None if thorough else 6000)
     cases += R.foreign_corrupt_cases(rng, tier, FLAVOUR)
     return cases
